@@ -284,15 +284,14 @@ def paramFlags (m : GoMap) (label : GoVal) : String :=
 
 def curveOfBits (bits : Nat) : Int := if bits = 256 then 1 else if bits = 384 then 2 else if bits = 521 then 3 else 0
 
-/-- `ec2Coordinate(v, size)` (key.go): a coordinate at the size of the curve's field, leading
-    zero octets preserved; a value that does not fit is left in minimal form for `validate` to
-    refuse -/
+/-- `ec2Coordinate(v, size)` (key.go): `v.Bytes()` — minimal length, leading zero octets are
+    restored by `MarshalCBOR` — except that the coordinate 0 is `size` zero octets rather than the
+    empty string (which would read as an absent coordinate) -/
 def ec2Coordinate (v size : Nat) : Bytes :=
-  if bitLen v > size * 8 then natBytes v else fillBytes size v
+  if v = 0 then List.replicate size 0 else natBytes v
 
 /-- `NewKeyEC2(alg, x, y, D.Bytes())` with `x, y := ec2Coordinates(pub)` for a key on the curve
-    with `bits`; coordinates as natural numbers.  (`big.Int.Bytes()` of 0 is the empty, non-nil
-    slice.) -/
+    with `bits`; coordinates as natural numbers. -/
 def keyFromEC (bits : Nat) (x y : Nat) (d : Option Nat) : Out Key :=
   let crv := curveOfBits bits
   if crv = 0 then .err .other else
